@@ -11,9 +11,8 @@ buffer), `src/read/relocate.rs` (`RelocateReader`) and the default methods of
   `sec[off .. off+len]`.  For `SubRange` this makes the `unsafe` pointer arithmetic explicit:
   `ptr = sec.as_ptr() + off`, `slice::from_raw_parts(ptr, len)` is in bounds iff
   `off + len ≤ sec.length` (`Cur.Inv`), `ptr.add(n)` is `off + n`.
-* `det` ("detached") is set only by `EndianSlice::empty`, which assigns the static empty slice
-  `&[]`: the pointer of such a reader no longer lies in the section (known finding C10-1); the
-  shared-buffer reader keeps its position (`truncate(0)`).
+* `empty()` keeps the reader's position in both concrete readers: `&self.slice[..0]` resp.
+  `truncate(0)` (before the fix of C10-1 `EndianSlice::empty` assigned the static `&[]`).
 * `&mut self` methods are state transformers `M σ α = σ → Out α × σ`: the reader state after the
   call is returned also when the call fails (Rust's `?` leaves the partially advanced reader).
 * `Impl σ` is the abstract interface (the required methods of `trait Reader` plus the three
@@ -30,7 +29,6 @@ structure Cur where
   sec : Bytes
   off : Nat
   len : Nat
-  det : Bool := false
   deriving Repr, DecidableEq, Inhabited
 
 namespace Cur
@@ -53,16 +51,13 @@ end Cur
 structure View where
   off : Nat
   len : Nat
-  det : Bool
   deriving Repr, DecidableEq, Inhabited
 
-def Cur.toView (c : Cur) : View := { off := c.off, len := c.len, det := c.det }
+def Cur.toView (c : Cur) : View := { off := c.off, len := c.len }
 
-/-- a `ReaderOffsetId`: an address inside the section (as a section offset) or the address of the
-static empty slice -/
+/-- a `ReaderOffsetId`: an address inside the section, as a section offset -/
 inductive Addr where
   | inSec (off : Nat)
-  | dangling
   deriving Repr, DecidableEq, Inhabited
 
 /-! ## `&mut self` methods -/
@@ -106,9 +101,8 @@ structure Core (σ : Type) where
   len : σ → Nat
   empty : σ → σ
   truncate : Nat → M σ Unit
-  /-- `self.offset_from(base)`; `none`: the value depends on the address of the static empty
-  slice (release build, detached reader) -/
-  offsetFrom : Mode → σ → σ → Out (Option Nat)
+  /-- `self.offset_from(base)` -/
+  offsetFrom : Mode → σ → σ → Out Nat
   offsetId : σ → Addr
   lookupOffsetId : σ → Addr → Option Nat
   find : σ → UInt8 → Out Nat
@@ -259,24 +253,23 @@ def commit (c : Cur) (o : Out Cur) : Out Unit × Cur :=
   | .panic w => (.panic w, c)
   | .diverge => (.diverge, c)
 
-/-- `offset_from` of both concrete readers for attached windows:
+/-- `offset_from` of both concrete readers:
 `debug_assert!(base_ptr <= ptr); debug_assert!(ptr + len <= base_ptr + base.len); ptr - base_ptr` -/
-def ptrOffsetFrom (m : Mode) (self base : Cur) : Out (Option Nat) :=
+def ptrOffsetFrom (m : Mode) (self base : Cur) : Out Nat :=
   match m with
   | .debug =>
     if ¬ base.off ≤ self.off then .panic "assertion failed: base_ptr <= ptr"
     else if ¬ self.off + self.len ≤ base.off + base.len then
       .panic "assertion failed: ptr + self.bytes().len() <= base_ptr + base.bytes().len()"
-    else .ok (some (self.off - base.off))
+    else .ok (self.off - base.off)
   | .release =>
-    if base.off ≤ self.off then .ok (some (self.off - base.off))
-    else .ok (some (2 ^ 64 - (base.off - self.off)))
+    if base.off ≤ self.off then .ok (self.off - base.off)
+    else .ok (2 ^ 64 - (base.off - self.off))
 
-/-- `lookup_offset_id` of both concrete readers for an attached window -/
+/-- `lookup_offset_id` of both concrete readers -/
 def ptrLookup (c : Cur) (id : Addr) : Option Nat :=
   match id with
   | .inSec n => if c.off ≤ n ∧ n ≤ c.off + c.len then some (n - c.off) else none
-  | .dangling => none
 
 /-- `bytes.iter().position(|x| *x == byte)` -/
 def position (bs : Bytes) (b : UInt8) : Option Nat := bs.findIdx? (· == b)
@@ -296,7 +289,7 @@ def empty (c : Cur) : Cur :=
 def truncate (len : Nat) : M Cur Unit := fun c =>
   if c.len < len then (.err .rUnexpectedEof, c) else commit c (SubRange.truncate c len)
 
-def offsetFrom (m : Mode) (self base : Cur) : Out (Option Nat) := ptrOffsetFrom m self base
+def offsetFrom (m : Mode) (self base : Cur) : Out Nat := ptrOffsetFrom m self base
 
 def offsetId (c : Cur) : Addr := .inSec c.off
 
@@ -370,31 +363,19 @@ namespace Slice
 
 def len (c : Cur) : Nat := c.len
 
-/-- `empty`: `self.slice = &[]` — the static empty slice, NOT a sub-slice of the section -/
-def empty (c : Cur) : Cur := { c with len := 0, det := true }
+/-- `empty`: `self.slice = &self.slice[..0]` — keeps the position -/
+def empty (c : Cur) : Cur := { c with len := 0 }
 
 /-- `truncate`: `self.slice = &self.slice[..len]` -/
 def truncate (len : Nat) : M Cur Unit := fun c =>
   if c.len < len then (.err .rUnexpectedEof, c) else (.ok (), { c with len := len })
 
-/-- inherent `offset_from`. With a detached operand the addresses compared are those of the
-section and of the static empty slice (address 1, `NonNull::dangling()`): both detached gives 0,
-otherwise one of the `debug_assert!`s fails (debug) or the difference is meaningless (release). -/
-def offsetFrom (m : Mode) (self base : Cur) : Out (Option Nat) :=
-  if self.det ∨ base.det then
-    if self.det ∧ base.det then .ok (some 0)
-    else match m with
-      | .debug =>
-        if self.det then .panic "assertion failed: base_ptr <= ptr"
-        else .panic "assertion failed: ptr + self.slice.len() <= base_ptr + base.slice.len()"
-      | .release => .ok none
-  else ptrOffsetFrom m self base
+/-- inherent `offset_from` -/
+def offsetFrom (m : Mode) (self base : Cur) : Out Nat := ptrOffsetFrom m self base
 
-def offsetId (c : Cur) : Addr := if c.det then .dangling else .inSec c.off
+def offsetId (c : Cur) : Addr := .inSec c.off
 
-def lookupOffsetId (c : Cur) (id : Addr) : Option Nat :=
-  if c.det then (match id with | .dangling => some 0 | .inSec _ => none)
-  else ptrLookup c id
+def lookupOffsetId (c : Cur) (id : Addr) : Option Nat := ptrLookup c id
 
 def find (c : Cur) (b : UInt8) : Out Nat :=
   match position c.bytes b with
@@ -463,13 +444,11 @@ def onReader {α : Type} (m : M σ α) : M (RCur σ) α := fun s =>
   (o, { s with rdr := r' })
 
 /-- `let offset = self.reader.offset_from(&self.section); let value = self.reader.<read>?;
-self.relocate.<relocate>(offset, value)`.
-If the offset is meaningless (`none`: release build, detached reader) the read that follows
-cannot succeed (a detached reader is empty), so the value passed on in that case is immaterial. -/
+self.relocate.<relocate>(offset, value)` -/
 def relocated (I : Impl σ) (m : Mode) (read : M σ Nat) (rel : Nat → Nat → Out Nat) :
     M (RCur σ) Nat := fun s =>
   match I.offsetFrom m s.rdr s.sect with
-  | .ok o => M.bind (onReader read) (fun v => M.liftOut (rel (o.getD 0) v)) s
+  | .ok o => M.bind (onReader read) (fun v => M.liftOut (rel o v)) s
   | .err e => (.err e, s)
   | .panic w => (.panic w, s)
   | .diverge => (.diverge, s)
@@ -554,8 +533,6 @@ inductive Val where
   | opt (o : Option Nat)
   | lenFmt (n : Nat) (f : Format)
   | addr (a : Addr)
-  /-- an offset that involves a detached reader: not observed (see `step`) -/
-  | det
   /-- the call returned a reader (shown in `Obs.new`) -/
   | rdr
   /-- the history names a reader that does not exist (any more) -/
@@ -622,9 +599,7 @@ def runQ (st : St σ) (i : Nat) (q : σ → Out Val) : Obs × St σ :=
   | some s => ({ res := q s, tgt := some (I.view s).toView, new := none }, st)
 
 /-- One operation of a history. `valid`/`lossy` are `str::from_utf8(..).is_ok()` and
-`String::from_utf8_lossy`. Offsets involving a detached reader (`offFrom`, and the offset id of a
-detached reader) are not observed by the harness either: it prints `det` instead of calling
-`offset_from`, whose result would be a failed `debug_assert!` or an address difference. -/
+`String::from_utf8_lossy`. -/
 def step (m : Mode) (e : Endian) (valid : Bytes → Bool) (lossy : Bytes → Bytes)
     (st : St σ) : Op → Obs × St σ
   | .fixed i n => runM I st i (M.map .nat (Dflt.readFixed I.toCore e n))
@@ -646,9 +621,7 @@ def step (m : Mode) (e : Endian) (valid : Bytes → Bool) (lossy : Bytes → Byt
     match st.get j with
     | none => (Obs.bad, st)
     | some b =>
-      runQ I st i (fun s =>
-        if (I.view s).det ∨ (I.view b).det then .ok .det
-        else (I.offsetFrom m s b).map .opt)
+      runQ I st i (fun s => (I.offsetFrom m s b).map (fun n => .opt (some n)))
   | .offId i =>
     match st.get i with
     | none => (Obs.bad, st)
